@@ -62,6 +62,14 @@ def server_cases(rng, thorough):
         cs.append(mk(0, 0, announce() + upgrade(conn=c), "err", "upgrade-connection"))
     cs.append(mk(0, 0, announce() + upgrade(extra="Security: StartTLS\r\n"), "err", "starttls-without-cert"))
     cs.append(mk(0, 0, announce() + upgrade(extra="Security: other\r\n"), "ok", "security-other"))
+    # a server that requires client certificates (cert 2): on an unencrypted carrier a peer that does not ask for StartTLS is refused (it
+    # could not present a certificate); on a carrier that is already encrypted the certificate was demanded underneath
+    cs.append(mk(0, 2, ok, "err", "reqcc-plain"))
+    cs.append(mk(0, 2, ok + "PAYLOAD", "err", "reqcc-plain"))
+    cs.append(mk(0, 2, announce() + upgrade(extra="Security: other\r\n"), "err", "reqcc-plain"))
+    cs.append(mk(0, 2, announce() + upgrade(extra="Security: \r\n"), "err", "reqcc-plain"))
+    cs.append(mk(1, 2, ok, "ok", "reqcc-secure-carrier"))
+    cs.append(mk(0, 2, announce() + upgrade(conn="x"), "err", "reqcc-plain"))
     cs.append(mk(0, 0, "X-SOCKETACE\r\n\r\n", "err", "no-spaces"))
     cs.append(mk(0, 0, "X-SOCKETACE /\r\n\r\n", "err", "one-space"))
     cs.append(mk(0, 0, " \r\n\r\n", "err", "blank-ish"))
